@@ -354,14 +354,14 @@ def emit(src, zm, ins, walls, batch, rt_share, rng):
     else:
         yield from lines('lz.at', ins)
     sp = [w for w in walls if spaced(w)]
-    un = [w for w in walls if not spaced(w)]
+    un = [w for w in walls if not spaced(w)][::3]      # the known-finding class: a third is plenty
     for ws, op, sel in ((sp, 'lz.loc', 'lz.sel'), (un, 'lz.uloc', 'lz.usel')):
         yield from lines(op, ws)
         yield from lines(sel, ws[::4])
     rts = ins if rt_share >= 1 else [x for x in ins if rng.random() < rt_share]
     # the wall reading of an instant is within 26 h of it: classify by the instant
     yield from lines('lz.rt', [t for t in rts if spaced(t)])
-    yield from lines('lz.urt', [t for t in rts if not spaced(t)])
+    yield from lines('lz.urt', [t for t in rts if not spaced(t)][::3])
 
 
 # ------------------------------------------------------------------ synthetic zones
@@ -477,7 +477,7 @@ def ordered_cases(tier, rng):
     base_years = [2037, 2038, 2100, 2500, 10000]
     for k, (name, data, zm) in enumerate(zones):
         years = rule_years(zm, base_years + ([rng.randint(2039, 2099)] if quick else list(range(2039, 2100, 3))))
-        ins, walls = zone_points(zm, rng, (24 if quick else 1), years, 6 if quick else 60)
+        ins, walls = zone_points(zm, rng, (24 if quick else 4), years, 6 if quick else 60)
         if quick:
             # every transition of every zone is visited on the thorough tier; quick keeps a rotating
             # sixth of the points (whole +-3 s windows are still covered across neighbouring zones
@@ -486,13 +486,13 @@ def ordered_cases(tier, rng):
             walls = walls[k % 6::6]
         yield from emit(data, zm, ins, walls, batch_for(len(data), quick), 0.5 if quick else 1, rng)
     # synthetic TZif
-    for _ in range(700 if quick else 30000):
+    for _ in range(700 if quick else 8000):
         data, zm = synth_zone(rng)
         years = rule_years(zm, [rng.choice([1971, 2000, 2024, 2100, 2500, 10000])])
         ins, walls = zone_points(zm, rng, 3, years, 4)
         yield from emit(data, zm, ins, walls, batch_for(len(data), quick), 1, rng)
     # POSIX rules through the TZ-string route
-    for _ in range(1000 if quick else 30000):
+    for _ in range(1000 if quick else 8000):
         ext = rng.random() < 0.4
         r = synth_rule(rng, ext)
         text = g16.fmt_rule(r, rng.random() < 0.2)
